@@ -164,6 +164,66 @@ Definition np_vstack {F : Type} (l : list (arr2 F)) : res (arr2 F) :=
     else Raise "ValueError"
   end.
 
+(* ---- floating-point kernels (carrier and operations abstract) ---- *)
+(* range(a, b) and range(a, b, -1) *)
+Definition zrange2 (a b : Z) : list Z := map (fun k => a + Z.of_nat k) (seq 0 (Z.to_nat (b - a))).
+Definition zrange_down (a b : Z) : list Z := map (fun k => a - Z.of_nat k) (seq 0 (Z.to_nat (a - b))).
+
+(* a parameter that is either a Python / NumPy scalar or a 1-D array *)
+Inductive nd (F : Type) : Type :=
+| NdScalar (x : F)
+| NdVec (l : list F).
+Arguments NdScalar {F} x.
+Arguments NdVec {F} l.
+
+Fixpoint py_map2 {A B C : Type} (f : A -> B -> C) (l1 : list A) (l2 : list B) : list C :=
+  match l1, l2 with
+  | x :: r1, y :: r2 => f x y :: py_map2 f r1 r2
+  | _, _ => []
+  end.
+
+(* a (op) b on 1-D arrays: equal lengths, or NumPy's broadcast of a length-1 operand *)
+Definition np_bin_vv {F : Type} (f : F -> F -> F) (a b : list F) : res (list F) :=
+  if Nat.eqb (length a) (length b) then Ret (py_map2 f a b)
+  else match a, b with
+       | _, [y] => Ret (map (fun x => f x y) a)
+       | [x], _ => Ret (map (fun y => f x y) b)
+       | _, _ => Raise "ValueError"
+       end.
+
+(* 1-D array (op) scalar-or-array parameter *)
+Definition np_bin_vnd {F : Type} (f : F -> F -> F) (a : list F) (b : nd F) : res (list F) :=
+  match b with
+  | NdScalar y => Ret (map (fun x => f x y) a)
+  | NdVec l => np_bin_vv f a l
+  end.
+
+(* np.argmin on a 1-D array without NaN: index of the first minimum; ValueError when empty.
+   (With a NaN present NumPy returns the index of the first NaN; the properties quantify over
+   finite costs, and the bit-exact correspondence never feeds NaN to this rendering.) *)
+Fixpoint argmin_from {F : Type} (ltb : F -> F -> bool) (best : F) (bi i : nat) (l : list F) : nat :=
+  match l with
+  | [] => bi
+  | x :: r => if ltb x best then argmin_from ltb x i (S i) r else argmin_from ltb best bi (S i) r
+  end.
+Definition np_argmin {F : Type} (ltb : F -> F -> bool) (l : list F) : res Z :=
+  match l with
+  | [] => Raise "ValueError"
+  | x :: r => Ret (Z.of_nat (argmin_from ltb x 0 1 r))
+  end.
+
+(* a[i, j] and a[i, j] = v on a 2-D array (negative indices wrap, IndexError outside) *)
+Definition np_get2 {F : Type} (a : arr2 F) (i j : Z) : res F :=
+  row <- py_getitem (a_cells a) i ;; py_getitem row j.
+Definition np_set2 {F : Type} (a : arr2 F) (i j : Z) (v : F) : res (arr2 F) :=
+  row <- py_getitem (a_cells a) i ;;
+  row' <- py_set_index row j v ;;
+  let k := Z.to_nat (if i <? 0 then i + py_len (a_cells a) else i) in
+  Ret (mk_arr2 (a_rows a) (a_cols a) (set_nth k row' (a_cells a))).
+
+(* value stored into a uint16 array: NumPy's cast of an integer index wraps modulo 2^16 *)
+Definition wrap_u16 (z : Z) : Z := z mod 65536.
+
 (* ---- facts used by every equivalence proof ---- *)
 Lemma bind_ret {A B : Type} (a : A) (f : A -> res B) : bind (Ret a) f = f a.
 Proof. reflexivity. Qed.
